@@ -32,6 +32,22 @@ func (m *Monitor) checkHeld(n *Node) {
 	m.heldPair(n, "proposal", rs.ProposalBlock, rs.ProposalBlockParts)
 	m.heldPair(n, "locked", rs.LockedBlock, rs.LockedBlockParts)
 	m.heldPair(n, "valid", rs.ValidBlock, rs.ValidBlockParts)
+	// the lock: a node locks the block it precommits. Block.Hash() covers the header only, so "the block with that
+	// hash" is not enough: the locked block's part set must be the one named in the node's own precommit of the
+	// lock round (otherwise it re-proposes / prevotes, under its lock, bytes nobody else voted for).
+	if rs.LockedBlock != nil && rs.LockedBlockParts != nil && rs.Votes != nil && rs.LockedRound >= 0 {
+		if pcs := rs.Votes.Precommits(rs.LockedRound); pcs != nil {
+			if v := pcs.GetByAddress(n.Key.Priv.PubKey().Address()); v != nil && !v.BlockID.IsZero() {
+				m.count("locks_compared_with_own_precommit", 1)
+				if !rs.LockedBlockParts.HasHeader(v.BlockID.PartsHeader) || !rs.LockedBlock.HashesTo(v.BlockID.Hash.Bytes()) {
+					m.violate("held-block/locked/not-the-block-of-the-own-precommit",
+						"n%d at %d/%d: locked in round %d on block %x with part set %d:%x, but its precommit of that round names %x with part set %d:%x",
+						n.ID, rs.Height, rs.Round, rs.LockedRound, rs.LockedBlock.Hash().Bytes()[:6], rs.LockedBlockParts.Total(), []byte(rs.LockedBlockParts.Header().Hash)[:6],
+						v.BlockID.Hash.Bytes()[:6], v.BlockID.PartsHeader.Total, []byte(v.BlockID.PartsHeader.Hash)[:6])
+				}
+			}
+		}
+	}
 }
 
 func (m *Monitor) heldPair(n *Node, what string, b *types.Block, ps *types.PartSet) {
@@ -92,6 +108,22 @@ func (s *Sim) MakeByzProposal(id int, ref *Node, h uint64, r int, variant int, p
 	pr.Signature = sig
 	bid := types.BlockID{Hash: block.Hash(), PartsHeader: parts.Header()}
 	bz, _ := ioutil.ReadAll(parts.GetReader())
+	s.Mon.noteProposal(h, bid)
+	s.Mon.NoteProposalBytes(parts.Header(), bz)
+	return &ByzProposal{Msg: &cs.ProposalMessage{Proposal: pr}, Block: block, Parts: parts, BlockID: bid, Bytes: bz}
+}
+
+// MakeByzProposalOverBytes lets Byzantine validator id sign a proposal for (h,r) whose part set carries exactly
+// bz (the proposer chooses the bytes: e.g. a block's encoding followed by further bytes). block is the block the
+// bytes are meant to decode to (its hash goes into the BlockID the simulator knows the proposal by).
+func (s *Sim) MakeByzProposalOverBytes(id int, h uint64, r int, bz []byte, block *types.Block) *ByzProposal {
+	parts := types.NewPartSetFromData(bz, s.GenDoc.ConsensusParams.BlockGossip.BlockPartSizeBytes)
+	pr := types.NewProposal(h, r, parts.Header(), -1, types.BlockID{})
+	pr.Timestamp = time.Unix(1569409200+int64(s.Steps), 0).UTC()
+	pr.Type = types.ProposalTypeNormal
+	sig, _ := s.Vals[id].Priv.Sign(pr.SignBytes(s.ChainID))
+	pr.Signature = sig
+	bid := types.BlockID{Hash: block.Hash(), PartsHeader: parts.Header()}
 	s.Mon.noteProposal(h, bid)
 	s.Mon.NoteProposalBytes(parts.Header(), bz)
 	return &ByzProposal{Msg: &cs.ProposalMessage{Proposal: pr}, Block: block, Parts: parts, BlockID: bid, Bytes: bz}
